@@ -15,7 +15,7 @@ enum { K_ENCKEY, K_ADAPTOR, K_PUBLISH, K_RELAY, K_NK };
 const char *const KN[] = {"ENCKEY", "ADAPTOR", "PUBLISH", "RELAY"};
 enum { F_MALLEATE = NF_WORLD1 };
 
-struct NonceCtl { int fail_at = -1; int kind = 0; int calls = 0; const unsigned char *aux = nullptr; bool want_alias = false; };
+struct NonceCtl { int fail_at = -1; int kind = 0; int calls = 0; const unsigned char *aux = nullptr; bool want_alias = false; unsigned char fixed_k[32]; };
 int ctl_nonce(unsigned char *nonce32, const unsigned char *msg32, const unsigned char *key32, const unsigned char *pk33, const unsigned char *algo, size_t algolen, void *data) {
     NonceCtl *c = (NonceCtl *)data;
     int idx = c->calls++;
@@ -23,7 +23,8 @@ int ctl_nonce(unsigned char *nonce32, const unsigned char *msg32, const unsigned
         if (c->kind == 1) return 0;                          // "usually successful call fails"
         if (c->kind == 2) { memset(nonce32, 0, 32); return 1; }   // zero nonce
     }
-    if (c->kind == 3) {   // custom but deterministic nonce source
+    if ((c->kind == 4 || c->kind == 5) && idx == 0) { memcpy(nonce32, c->fixed_k, 32); return 1; }   // a nonce committed to before the message was known
+    if (c->kind >= 3) {   // custom but deterministic nonce source
         ref::Sha256 h; h.write(msg32, 32); h.write(key32, 32); h.write(pk33, 33); h.write(algo, algolen); uint8_t i = (uint8_t)idx; h.write(&i, 1); h.finish(nonce32);
         return 1;
     }
@@ -37,7 +38,7 @@ struct SwapSim {
     uint64_t inseed = 0, draw = 0;
     int k = 1; bool bob_static = false;
     struct S {
-        uint8_t x[32], y[32], msg[32]; secp256k1_pubkey X, Y; uint8_t X33[33], Y33[33]; ref::Pt Xpt;
+        uint8_t x[32], y[32], msg[32]; secp256k1_pubkey X, Y; uint8_t X33[33], Y33[33]; ref::Pt Xpt, Ypt;
         // Alice
         bool a_has_y = false; uint8_t a_y33[33]; bool a_y_intact = false; Bytes a_adaptor; bool a_failed = false;
         // Bob
@@ -65,7 +66,18 @@ struct SwapSim {
         NonceCtl ctl; uint8_t aux[32]; fresh32(aux);
         const Op *nf = find("noncefault", s);
         bool use_cb = false, expect_fail = false;
-        if (nf) { ctl.kind = (int)(nf->arg(1) % 4); ctl.fail_at = (int)(nf->arg(2) % 2); use_cb = true; if (nf->arg(3) & 1) ctl.aux = aux; expect_fail = ctl.kind == 1 || ctl.kind == 2; if (ctl.kind) r.fault("nonce_cb." + std::to_string(ctl.kind)); }
+        if (nf) { ctl.kind = (int)(nf->arg(1) % 6); ctl.fail_at = (int)(nf->arg(2) % 2); use_cb = true; if (nf->arg(3) & 1) ctl.aux = aux; expect_fail = ctl.kind == 1 || ctl.kind == 2; if (ctl.kind) r.fault("nonce_cb." + std::to_string(ctl.kind)); }
+        if (ctl.kind == 4 || ctl.kind == 5) {
+            // Alice committed to her nonce k before the message was fixed, and the message that is then agreed happens to be the one
+            // for which s' = k^-1 (m + R.x x) is 0 (kind 4: encryption must fail, output zeroed) or 1 / n-1 (kind 5: must work)
+            fresh32(ctl.fixed_k); ctl.fixed_k[0] &= 0x7f; ctl.fixed_k[31] |= 1;
+            ref::Pt Yrx; ref::parse_pubkey(w.a_y33, 33, &Yrx);
+            ref::U256 kk = ref::U256::from_be(ctl.fixed_k), rr = ref::FN.reduce(ref::mul(kk, Yrx).x), xs = ref::U256::from_be(w.x);
+            ref::U256 T = ctl.kind == 4 ? ref::U256() : ((nf->arg(3) & 2) ? ref::FN.neg(ref::U256(1)) : ref::U256(1));
+            ref::FN.sub(ref::FN.mul(T, kk), ref::FN.mul(rr, xs)).to_be(w.msg);
+            expect_fail = ctl.kind == 4;
+            r.probe(ctl.kind == 4 ? "message_makes_encrypted_scalar_zero" : "message_makes_encrypted_scalar_boundary");
+        }
         Buf out(162); uint8_t skc[32]; memcpy(skc, w.x, 32);
         // the caller may keep the message (or its key copy) inside the work buffer that also receives the output
         const Op *al = find("alias", s);
@@ -109,6 +121,9 @@ struct SwapSim {
         int v = L01(secp256k1_ecdsa_adaptor_verify(frugal_ctx(bob_static, bctx, "secp256k1_ecdsa_adaptor_verify"), in.p(), &w.X, w.msg, &w.Y));
         r.cmp();
         if (!mon_quiet_since(mk)) { r.violate("C14", "callback", "secp256k1_ecdsa_adaptor_verify", "callback on received bytes: " + g_mon.last_illegal); return; }
+        // the verdict is the documented predicate (reference model: parse rules, DLEQ proof, R' == s'^-1 (m G + R.x X))
+        { bool mvd = ref::adaptor_verify(m.bytes.data(), w.Xpt, w.msg, w.Ypt); r.cmp();
+          if ((v != 0) != mvd) { r.violate("C14", "verify_model", "secp256k1_ecdsa_adaptor_verify", std::string("library verdict ") + std::to_string(v) + " but the reference model says " + std::to_string(mvd) + " for " + hex(m.bytes).substr(0, 80) + "..."); return; } }
         // genuine: the bytes are an adaptor signature Alice made for exactly this (X, msg, Y) - possibly in a twin swap with identical parameters
         bool genuine = false;
         for (auto &o : sw) if (!o.a_adaptor.empty() && m.bytes == o.a_adaptor && memcmp(o.X33, w.X33, 33) == 0 && memcmp(o.msg, w.msg, 32) == 0 && memcmp(o.a_y33, w.Y33, 33) == 0) genuine = true;
@@ -164,6 +179,58 @@ struct SwapSim {
         if (!belongs && rc) { r.violate("C14", "recover_accepts_foreign", "secp256k1_ecdsa_adaptor_recover", "recover accepted a signature that does not belong to this adaptor signature / encryption key"); return; }
         if (rc) { w.recovered = true; r.probe("swap_completed"); } else r.probe("recover_refused");
     }
+    // A third party (an escrow, an auditor) is shown adaptor signatures by an encryptor who builds them herself instead of calling
+    // the library - every structural rule holds, including an honest DLEQ proof, except the one the type names. Verdicts must be
+    // the documented predicate's (reference model); decrypt and recover must stay well defined on whatever verify accepted or not.
+    void audit(const Op &o) {
+        int type = (int)(o.arg(0) % 7);
+        uint8_t xb[32], kb[32], db[32], msg[32], yb[32];
+        fresh32(xb); xb[0] &= 0x7f; xb[31] |= 1; fresh32(kb); kb[0] &= 0x7f; kb[31] |= 1; fresh32(db); db[0] &= 0x7f; db[31] |= 1; fresh32(msg); fresh32(yb); yb[0] &= 0x7f; yb[31] |= 1;
+        ref::U256 x = ref::U256::from_be(xb), kk = ref::U256::from_be(kb), dn = ref::U256::from_be(db), y = ref::U256::from_be(yb);
+        ref::Pt X = ref::mulG(x), Y = ref::mulG(y);
+        bool knows_y = true;
+        if (type == 1) {   // R has x-coordinate n (so R.x mod n == 0): choose R first, then the encryption key Y = k^-1 R
+            ref::Pt R;
+            if (!ref::lift_x(ref::FN.m, &R)) { r.probe("audit_x_equal_n_not_on_curve"); return; }
+            if (o.arg(1) & 1) R.y = ref::FP.neg(R.y);
+            Y = ref::mul(ref::FN.inv(kk), R); knows_y = false;
+        }
+        ref::U256 rr = ref::FN.reduce(ref::mul(kk, Y).x);
+        uint8_t sp[32]; ref::FN.mul(ref::FN.inv(kk), ref::FN.add(ref::scalar_from_be_reduce(msg), ref::FN.mul(rr, x))).to_be(sp);
+        if (type == 2) memset(sp, 0, 32);
+        if (type == 3) ref::FN.m.to_be(sp);
+        uint8_t a[162]; ref::adaptor_craft(kk, Y, sp, dn, a);
+        ref::Pt Xv = X; uint8_t mv[32]; memcpy(mv, msg, 32);
+        if (type == 4) Xv = ref::add(X, ref::G);
+        if (type == 5) mv[31] ^= 1;
+        if (type == 6) a[33] ^= 1;   // R' negated
+        uint8_t X33[33], Y33[33]; ref::ser33(Xv, X33); ref::ser33(Y, Y33);
+        secp256k1_pubkey Xl, Yl;
+        if (!L01(secp256k1_ec_pubkey_parse(bctx, &Xl, X33, 33)) || !L01(secp256k1_ec_pubkey_parse(bctx, &Yl, Y33, 33))) { r.violate("C14", "setup", "secp256k1_ec_pubkey_parse", "auditor keys do not parse"); return; }
+        Exact in(Bytes(a, a + 162));
+        MonMark mk = mon_mark();
+        int v = L01(secp256k1_ecdsa_adaptor_verify(frugal_ctx(bob_static, bctx, "secp256k1_ecdsa_adaptor_verify"), in.p, &Xl, mv, &Yl));
+        bool mvd = ref::adaptor_verify(a, Xv, mv, Y);
+        r.cmp();
+        r.fault("crafted_adaptor." + std::to_string(type));
+        if (!mon_quiet_since(mk)) { r.violate("C14", "callback", "secp256k1_ecdsa_adaptor_verify", "callback on a crafted adaptor signature"); return; }
+        if ((v != 0) != mvd) { r.violate("C14", "verify_model", "secp256k1_ecdsa_adaptor_verify", std::string("crafted adaptor signature type ") + std::to_string(type) + ": library verdict " + std::to_string(v) + ", reference model " + std::to_string(mvd)); return; }
+        if ((type == 0) != mvd) { r.violate("C14", "model_selfcheck", "ref::adaptor_verify", "the crafted signature of type " + std::to_string(type) + " has an unexpected model verdict"); return; }
+        r.probe(v ? "crafted_adaptor_accepted" : "crafted_adaptor_rejected");
+        // decrypt / recover stay defined; for the honest craft they round-trip
+        secp256k1_ecdsa_signature sig; uint8_t sb[64], dk[32];
+        mk = mon_mark();
+        int d = L01(secp256k1_ecdsa_adaptor_decrypt(frugal_ctx(bob_static, bctx, "secp256k1_ecdsa_adaptor_decrypt"), &sig, yb, in.p));
+        L01(secp256k1_ecdsa_signature_serialize_compact(bctx, sb, &sig));
+        int rc = L01(secp256k1_ecdsa_adaptor_recover(bctx, dk, &sig, in.p, &Yl));
+        r.cmp();
+        if (!mon_quiet_since(mk)) { r.violate("C14", "callback", "secp256k1_ecdsa_adaptor_decrypt", "callback on a crafted adaptor signature"); return; }
+        if (type == 0) {
+            if (!d || !ref::ecdsa_verify(X, msg, sb, sb + 32)) { r.violate("C14", "decrypted_invalid", "secp256k1_ecdsa_adaptor_decrypt", "an accepted crafted adaptor signature does not decrypt to a valid signature"); return; }
+            if (!rc || memcmp(dk, yb, 32) != 0) { r.violate("C14", "recover_wrong", "secp256k1_ecdsa_adaptor_recover", "recover does not return the decryption key for a crafted, accepted adaptor signature"); return; }
+        }
+        (void)knows_y;
+    }
     void run() {
         inseed = (uint64_t)p.c("inseed");
         k = (int)std::max<int64_t>(1, std::min<int64_t>(4, p.c("swaps", 1)));
@@ -186,7 +253,7 @@ struct SwapSim {
             size_t l = 33;
             if (!L01(secp256k1_ec_pubkey_create(ctx, &w.X, w.x)) || !L01(secp256k1_ec_pubkey_create(ctx, &w.Y, w.y))) { r.violate("C14", "setup", "secp256k1_ec_pubkey_create", "setup failed"); cleanup(); return; }
             L01(secp256k1_ec_pubkey_serialize(ctx, w.X33, &l, &w.X, SECP256K1_EC_COMPRESSED)); l = 33; L01(secp256k1_ec_pubkey_serialize(ctx, w.Y33, &l, &w.Y, SECP256K1_EC_COMPRESSED));
-            w.Xpt = ref::mulG(ref::U256::from_be(w.x));
+            w.Xpt = ref::mulG(ref::U256::from_be(w.x)); w.Ypt = ref::mulG(ref::U256::from_be(w.y));
         }
         net.init(&p, &r, KN);
         net.on_deliver = [&](const Msg &m) {
@@ -211,6 +278,7 @@ struct SwapSim {
         bool capped = false;
         while (r.ok && net.step(&capped)) {}
         if (capped) r.violate("C14", "step_cap", "run", "step cap hit");
+        for (const Op &o : p.ops) if (o.k == "audit" && r.ok) audit(o);
         // liveness: a swap untouched by any fault completes
         for (int i = 0; i < k && r.ok; i++) {
             bool touched = net.fault_sids.count(i) || find("noncefault", i) || find("keyfault", i) || aliased_failed.count(i);
@@ -232,7 +300,7 @@ static Plan swap_generate(uint64_t seed, int) {
     p.cfg["swaps"] = k; p.cfg["rand_ctx"] = (int64_t)g.below(2); p.cfg["bob_static"] = g.chance(1, 3); p.cfg["comp_a"] = g.chance(1, 4); p.cfg["comp_b"] = g.chance(1, 4);
     for (int i = 0; i < k; i++) {
         if (g.chance(1, 3)) { Op o; o.k = "class"; o.a = {i, (int64_t)g.below(4), (int64_t)g.below(4)}; p.ops.push_back(o); }
-        if (g.chance(1, 4)) { Op o; o.k = "noncefault"; o.a = {i, (int64_t)g.below(4), (int64_t)g.below(2), (int64_t)g.below(2)}; p.ops.push_back(o); }
+        if (g.chance(1, 4)) { Op o; o.k = "noncefault"; o.a = {i, (int64_t)g.below(6), (int64_t)g.below(2), (int64_t)g.below(4)}; p.ops.push_back(o); }
         if (g.chance(1, 8)) { Op o; o.k = "keyfault"; o.a = {i, (int64_t)g.below(2)}; p.ops.push_back(o); }
         if (g.chance(1, 8)) { Op o; o.k = "alias"; o.a = {i, (int64_t)g.below(2)}; p.ops.push_back(o); }
     }
@@ -257,6 +325,7 @@ static Plan swap_generate(uint64_t seed, int) {
             p.ops.push_back(o);
         }
     }
+    { int na = (int)g.below(3); for (int i = 0; i < na; i++) { Op o; o.k = "audit"; o.a = {(int64_t)g.below(7), (int64_t)g.below(2)}; p.ops.push_back(o); } }
     return p;
 }
 static void swap_execute(const Plan &p, const ExecOpts &, Result &r) { SwapSim w(p, r); w.run(); }
